@@ -36,7 +36,29 @@ def printed(path, tag):
     return res
 
 
+def doc_revision(ctx):
+    """the two places where the document has a known alternative wording (NOTES/C06_proposed_fix.patch)"""
+    p = os.path.join(vk.REPO, "doc", "query_syntax.md")
+    try:
+        text = open(p).read()
+    except OSError as e:
+        raise vk.Inconclusive("cannot read the normative text %s: %s" % (p, e))
+    row = [ln for ln in text.splitlines() if ln.startswith("| `regex:`")]
+    if len(row) != 1:
+        raise vk.Inconclusive("doc/query_syntax.md: no row for regex: in the field table; re-read the document")
+    if "Matches content using a regular expression" in row[0]:
+        regex_field = "content"
+    elif "file names or content" in row[0]:
+        regex_field = "any"
+    else:
+        raise vk.Inconclusive("doc/query_syntax.md: the description of regex: changed (%r); re-read the document" % row[0])
+    multiline = "Multi-line mode is always on" in text
+    return regex_field, multiline
+
+
 def run(ctx):
+    regex_field, multiline = doc_revision(ctx)
+    ctx.log("document: regex: matches %s; ^ and $ are %s anchors" % (regex_field, "line" if multiline else "text"))
     # ---- R: skeletons from TLC (also model-checks the generator against the recogniser)
     res = ctx.model_check("QueryLangGen", "QueryLangGen_mc.cfg", name="tlc_gen", timeout=3000, workers=4, defines={
         "MaxDepth": 3, "MaxItems": 4, "MaxLeaves": ctx.pick(4, 5), "MaxGroups": 2, "Emit": "TRUE"})
@@ -49,7 +71,7 @@ def run(ctx):
     rest = [s for s in scripts if leaves(s) > 2]
     # skeletons that exercise scoping are preferred in the sample: a directive or an `or` next to a group
     scoped = [s for s in rest if ("(" in s or "-(" in s) and ("c" in s or "t" in s or "or" in s)]
-    n = ctx.pick(100, 3600)
+    n = ctx.pick(100, 1500)
     pick = (rng.sample(small, min(len(small), ctx.pick(30, 10 ** 6))) + rng.sample(scoped, min(len(scoped), n * 2 // 3))
             + rng.sample(rest, min(len(rest), n // 3)))
     ctx.log("skeletons from TLC: %d (%d with <= 2 leaves), used %d" % (len(scripts), len(small), len(pick)))
@@ -58,7 +80,8 @@ def run(ctx):
     ctx.sample({"skeleton": pick[len(pick) // 2]})
 
     # ---- the real parser and searcher
-    rc, out, trace = ctx.driver(PKG, "^TestVerif_C06_QueryLang$", FILES, env={"VERIF_IN": inp}, timeout=3000)
+    rc, out, trace = ctx.driver(PKG, "^TestVerif_C06_QueryLang$", FILES, env={"VERIF_IN": inp, "VERIF_C06_MULTILINE": int(multiline)},
+                                timeout=3000)
     if rc != 0:
         raise vk.Inconclusive("driver failed:\n%s" % out[-3000:])
     events = vk.read_ndjson(trace)
@@ -69,7 +92,8 @@ def run(ctx):
     ctx.log("driver: %d derivations, %d strings, %d distinct parse results searched on 2 corpora" % (len(qls), nstr, nparsed))
 
     # ---- V
-    acc, rej = ctx.validate_trace_sharded("Trace_QueryLang", "Trace_QueryLang.cfg", trace, header_lines=3, shards=8,
+    cfg = "Trace_QueryLang.cfg" if regex_field == "content" else "Trace_QueryLang_any.cfg"
+    acc, rej = ctx.validate_trace_sharded("Trace_QueryLang", cfg, trace, header_lines=3, shards=8,
                                           name="tlcs_ql", timeout=ctx.pick(1500, 6000))
     answers = {}
     for logp in glob.glob(os.path.join(ctx.work, "tlcs_ql_*", "tlc.log")):
